@@ -30,11 +30,14 @@ statement is still false of the code: `_resolve_dynamic_deps` locates a holder b
 of the object in the chain, so with an object attached below itself (`t.a = t`, `@depends('a.x')`) a
 leaf assignment is compared through the wrong sub-path and skipped — `C07_full` (every history) is
 refuted from that witness (recorded finding `object-attached-below-itself`, corpus/C07/self-cycle.json).
-Batched assignments on one object (`param.update`, `batch_call_watchers`) are modelled (`Step.update`) and
-checked by correspondence and the oracle; the theorems are about unbatched assignments.
+Batched assignments on one object (`param.update`, `batch_call_watchers`, keys possibly repeated) and
+`discard_events` are modelled (`Step.update`, `Step.discard`) and checked by correspondence and the oracle; the
+theorems are about unbatched assignments.
 What the theorems do NOT cover (model + differential run + oracle only): `'a.param'` leaves (the
 English names them; `Scope.leaf` excludes them), object-valued leaves (`'a.b'` next to `'a.b.x'`;
 `Typing.leafInt`), several methods on the owner, several owners, batched steps (`C07_full_batch_refuted`),
+discarded steps (`C07_full_discard_refuted`), inherited declarations and falsy objects (generator dimensions only:
+the model takes the class's `_depends['watch']` as given and has no truth values — the code tests `is None`),
 attach-from / detach-to `None` call counts (the English excludes them), and there is no theorem that the
 log of a whole in-scope history satisfies `specHistoryP` — the per-step theorems and the oracle are tied
 by `oracle_read_set_is_the_walk` only.  `history_keeps_installed` assumes per state only `SimpleAlong`.
